@@ -288,6 +288,8 @@ EXPLAIN_SCENARIOS = [
     ('tuple[Mapping[str, int], int]', "(ChainMap(defaultdict(int), {'a': 1}), 'bad')"), ('dict[str, int]', "defaultdict(int, {'a': 1})"), ('Mapping[str, list[int]]', "defaultdict(list, {'a': [1]})"),
     # auto-vivifying mappings against the quasi-iterable hints (their KEYS are the items): as the culprit and as a conforming sibling
     ('Iterable[str]', "defaultdict(int, {b'a': 1, b'b': 2, b'c': 3})"), ('Container[str]', "defaultdict(list, {b'a': [1], b'b': []})"), ('Reversible[str]', "defaultdict(int, {b'a': 1, b'b': 2})"),
+    # Iterator / Generator hints are shallow: an iterator is never advanced by a check against them, whatever else it is (accepting path)
+    ('Iterator[int]', 'CollOneShot([10, 20, 30])'), ('tuple[Iterator[int], int]', "(CollOneShot([10, 20, 30]), 5)"), ('list[Iterator[int]]', '[CollOneShot([10, 20, 30])]'), ('Iterator[int]', 'OneShot([10, 20, 30])'),
     ('Collection[str]', "defaultdict(int, {b'a': 1, b'b': 2})"), ('tuple[Iterable[str], int]', "(defaultdict(int, {'a': 1, 'b': 2}), 'bad')"), ('list[Iterable[str]]', "[defaultdict(int, {b'a': 1, b'b': 2})]"),
 ]
 EXPLAIN_SRC = """
